@@ -10,7 +10,7 @@ TB = ("stdlib ast of /venv/bin/python parses the code the same way the interpret
 
 CHECKS = {
     "C15": dict(
-        technique="static effect analysis (ast): module/class/self/argument write sets closed over the call graph, decorator and default-argument audit, ambient-input census",
+        technique="static effect analysis (ast): module/class/self/argument write sets closed over the call graph, decorator and default-argument audit, ambient-input census; bulk path rule borrowed from C12",
         category="other",
         text="Decides for every function of the package, on all paths at once, that no shared mutable state and no ambient input exists "
              "(rules P1-P7): history-, position- and thread-independence then hold for all inputs. A memo keyed on part of the arguments, "
@@ -18,7 +18,7 @@ CHECKS = {
         ref="DESIGN 3/C15",
         note=TB + "; memoisation of any kind is treated as state (the library documents itself as stateless)"),
     "C17": dict(
-        technique="static effect analysis + control dependence (ast CFG, guard-literal dataflow, reaching definitions): I/O primitives reachable through the resolved call graph must be dominated by the show/save_report tests",
+        technique="static effect analysis + control dependence (ast CFG, guard-literal dataflow, reaching definitions): I/O primitives reachable through the resolved call graph must be dominated by the show/save_report tests; polarity of the validity guard around the preview's hex rendering; raw-entry provenance of converter arguments in the report region",
         category="other",
         text="Enumerates every I/O primitive reachable from the public API and proves, over all CFG paths, that each executes only under the "
              "requested flag (conditional I/O summaries are translated through call sites), that constructors/queries reach none, that nothing defined "
@@ -34,7 +34,7 @@ CHECKS = {
         ref="DESIGN 3/C18",
         note=TB + "; byte-identity of outputs additionally relies on C15 (purity) and is not compared at run time"),
     "C12": dict(
-        technique="static path counting + loop-carried dependence + reaching-definition value flow (ast CFG) over make_readable_bulk",
+        technique="static path counting + loop-carried dependence + reaching-definition value flow (ast CFG) over make_readable_bulk; label rule borrowed from C05",
         category="other",
         text="Proves on all paths that each iteration appends exactly once to an append-only accumulator, that the loop is left only by exhaustion, that nothing is carried "
              "between iterations, and - by following reaching definitions - that the appended pair is (make_readable(mode, very_readable) of this entry's own pair)[0] with the "
@@ -50,7 +50,7 @@ CHECKS = {
         ref="DESIGN 3/C19",
         note=TB + "; html.escape(quote=True) neutralises & < > \" '; scope = text arriving through the CLI and save_report (internal builders called with forged level strings are out of scope)"),
     "C14": dict(
-        technique="static exception-escape analysis: syntax-directed abstract interpretation over abstract types (isinstance/None/length/membership narrowing, context-sensitive callees, try/except class filtering) + None-guard typestate on .rgb (guard-literal dataflow)",
+        technique="static exception-escape analysis: syntax-directed abstract interpretation over abstract types (isinstance/None/length/membership narrowing, context-sensitive callees, try/except class filtering) + None-guard typestate on .rgb (guard-literal dataflow); bulk path rule borrowed from C12",
         category="other",
         text="Analyses the constructors once for the property's whole input domain (str, or list/tuple of int/float/bool/str/None of any length): every operation that can raise for "
              "some abstract operand contributes its exception class and the obligation is that no class escapes the constructor's handler; plus: .rgb is dereferenced only under "
@@ -66,14 +66,14 @@ CHECKS = {
         ref="DESIGN 3/C01, 2.2",
         note=TB + "; contracts (sa/contracts.py) transcribe the property; calculate_contrast_ratio / calculate_delta_e_2000 and the colour-preserving format wrappers are uninterpreted (their correctness: C05/C11/C06); A1 no NaN; oklch_to_rgb_safe yields valid 8-bit triples (C10)"),
     "C02": dict(
-        technique="static deductive verification (same guard-fact engine): accumulator lock-step invariants, monotonicity through callee contracts, early-return dominance; plus formula-shape audit of the contrast function as discharged assumption",
+        technique="static deductive verification (same guard-fact engine): accumulator lock-step invariants, monotonicity through callee contracts, early-return dominance; plus formula-shape audit of the contrast function as discharged assumption; compositing wiring rules borrowed from C13",
         category="other",
         text="At every return of the search, the strategies, the dispatcher and make_readable: contrast(result, bg) >= contrast(original, bg); and contrast(original) >= MIN implies the result denotes the "
              "original colour with success. Proved on all paths (loop invariants inferred as surviving candidates), hence for every pair, spelling-independent.",
         ref="DESIGN 3/C02",
         note=TB + "; contracts (sa/contracts.py) transcribe the property; calculate_contrast_ratio / calculate_delta_e_2000 and the colour-preserving format wrappers are uninterpreted (their correctness: C05/C11/C06); A1 no NaN; oklch_to_rgb_safe yields valid 8-bit triples (C10)"),
     "C04": dict(
-        technique="static deductive verification (same guard-fact engine): tolerance-guard dominance at every recording site, schedule-maximum constant evaluation, chain-of-bounded-steps invariant",
+        technique="static deductive verification (same guard-fact engine): tolerance-guard dominance at every recording site, schedule-maximum constant evaluation, chain-of-bounded-steps invariant; CIEDE2000 closed-form rule borrowed from C11 (the yardstick of every tolerance)",
         category="proof",
         text="The search routines return None or a valid colour within the tolerance they were given; the multi-phase search stays within max(schedule) (default literal maximum 5.0); mode 0 is within 5.0; "
              "modes 1/2 only return colours reached from the original by chaining such steps on the caller's background. Obligations at every return, all paths, all arguments (including schedules the library never uses).",
@@ -111,7 +111,7 @@ CHECKS = {
         ref="DESIGN 3/C10, 4/F-C10",
         note=TB + "; references in checks/C10.py transcribe Ottosson's OKLab (matrices of 2021-01-25) to 1e-6 relative"),
     "C07": dict(
-        technique="static constant-table comparison (148 keywords, two reference sources), normalisation-dominance rule via reaching-definition origins, formula-shape audits of the token scalers / hex reader / CSS HSL->RGB algorithm, hue-wrap census",
+        technique="static constant-table comparison (148 keywords, two reference sources), normalisation-dominance rule via reaching-definition origins, formula-shape audits of the token scalers / hex reader / CSS HSL->RGB algorithm, hue-wrap census; language inclusion of the numeric-token regex decided on the pattern (subset construction over its character classes)",
         category="other",
         text="Decides the structural clauses: the keyword table is CSS Color 3 + rebeccapurple entry by entry; every dispatch test sees color.strip().lower(); percentages, alpha, plain components, rounding and clamping are the CSS scalings; "
              "hex digits are doubled and read base 16 in R,G,B order; every hue entry is wrapped % 360; HSL->RGB is the CSS algorithm. A single wrong keyword value or a /256 is invisible to thirty sampled strings but is one mismatch here. "
@@ -119,7 +119,7 @@ CHECKS = {
         ref="DESIGN 3/C07",
         note=TB + "; embedded keyword table /verif/ref/css_named_colors.json (generated from tinycss2.color3, spot-checked against the CSS spec); thorough tier re-reads tinycss2's table"),
     "C13": dict(
-        technique="static argument-wiring rules (reaching-definition origins, guard literals) from ColorPair.__init__ through Color._parse to every compositing call + formula-shape audit of the two source-over blends",
+        technique="static argument-wiring rules (reaching-definition origins, guard literals) from ColorPair.__init__ through Color._parse to every compositing call + formula-shape audit of the two source-over blends; per-position component provenance of the compositor's colour; token-pattern rule borrowed from C07",
         category="other",
         text="Decides that the pair's own background is parsed first and is the only compositing context that reaches a translucent text colour on every path (white only when no background is supplied; a translucent background gets no context), "
              "and that both compositors are per-channel fg*a + bg*(1-a) with matching indices, alpha 1 returning the colour itself. Covers every spelling and every background at once; the tests never build a ColorPair with translucent text on a non-white background. The 1.5-unit numeric bound is not decided.",
@@ -134,14 +134,14 @@ CHECKS = {
         ref="DESIGN 3/C06, 4/F-C06",
         note=TB + "; acceptance ranges of the reader as established under C07/C14"),
     "C09": dict(
-        technique="static effect analysis (file-system primitives reachable from the CLI entry, with conditional-I/O summaries) + provenance of every write target + lossless-parse flag audit + store census and reaching-definition origins of every .content/.value write-back",
+        technique="static effect analysis (file-system primitives reachable from the CLI entry, with conditional-I/O summaries) + provenance of every write target + lossless-parse flag audit + store census and reaching-definition origins of every .content/.value write-back; guard-dominance rule for re-parsing at-rule blocks; discovery-filter rule borrowed from C18",
         category="other",
         text="Decides that the command's only file effects are open(<stem>_cm<suffix>, 'w') and the constant non-.css report, that inputs are opened read-only, that every re-serialised parse keeps whitespace and comments, that only update_decl_value writes a declaration "
              "and every .content write-back is the unfiltered list parsed from that same node, and that the output is the serialisation of this file's own rules. Holds for every stylesheet; the tests only grep for substrings. tinycss2's serialise-after-parse identity is assumed, not decided.",
         ref="DESIGN 3/C09",
         note=TB + "; tinycss2 keeps whitespace/comment tokens when the skip_* flags are False and serialises untouched tokens verbatim"),
     "C08": dict(
-        technique="static path rules over the ast CFG (exactly-one-counter counting dataflow incl. exception edges, must-pass-through with boolean-flag path sensitivity), reaching-definition origins for written == reported == API value, allocation-site ownership of declaration lists for write survival, constant-table agreement",
+        technique="static path rules over the ast CFG (exactly-one-counter counting dataflow incl. exception edges, must-pass-through with boolean-flag path sensitivity), reaching-definition origins for written == reported == API value, allocation-site ownership of declaration lists for write survival, constant-table agreement; hole-by-hole value flow of the report card; optional-value (regex match) dereference discipline over the short-circuit CFG",
         category="other",
         text="Decides, for every stylesheet shape at once: each rule with a text colour increments exactly one counter; the value written, the value reported and pair.make_readable(mode, very_readable=premium)[0] are one value; every 'adjusted' path writes and no other path does; "
              "every write lands in the list that is serialised last into its rule; the CLI target equals the optimiser's minimum; last declaration wins; nested recursion forwards everything. Re-derived two genuine defects (F-C08a: var() fallback/undefined reported adjusted but unwritten; "
